@@ -396,8 +396,9 @@ TrueCoordinates ==
            /\ e.ts = res[r].ts
            /\ res[r].tt = conf.tst[p]
 
-Acks0NoMetadata == conf.acks0 => \A r \in DOMAIN res : res[r].k \in {"noack", "err"}
-AcksMetadata == ~conf.acks0 => \A r \in DOMAIN res : res[r].k \in {"ok", "err"}
+\* ("cancelled": the application cancelled the future itself -- only the trace spec ever records that)
+Acks0NoMetadata == conf.acks0 => \A r \in DOMAIN res : res[r].k \in {"noack", "err", "cancelled"}
+AcksMetadata == ~conf.acks0 => \A r \in DOMAIN res : res[r].k \in {"ok", "err", "cancelled"}
 
 IdemNeverFails == (conf.idem /\ ~hard) => \A r \in DOMAIN res : res[r].k # "err"
 
